@@ -273,8 +273,12 @@ def obs_to_coq(out, store, idx):
 
 
 def case_to_coq(ops, obs, pre5):
-    return 'HistCase %s %s %s' % (coq_bool(pre5), coq_list(op_to_coq(o) for o in ops),
-                                  coq_list(obs_to_coq(o, s, i) for o, s, i in obs))
+    ops_t = coq_list(op_to_coq(o) for o in ops)          # may raise Unserialisable: case skipped
+    try:
+        obs_t = coq_list(obs_to_coq(o, s, i) for o, s, i in obs)
+    except common.Unserialisable as e:
+        raise common.OutcomeUnserialisable(str(e))
+    return 'HistCase %s %s %s' % (coq_bool(pre5), ops_t, obs_t)
 
 
 # ------------------------------------------------------------------ generators
@@ -415,7 +419,8 @@ def gen_op(rng, docs, weights, **kw):
         kind = rng.choice(['update', 'update', 'replace', 'delete'])
         sort = []
         if rng.random() < 0.6:
-            sort = [[rng.choice(gen.KEYS + ['_id']), rng.choice([1, -1])]]
+            sort = [[rng.choice(gen.KEYS + ['_id']), rng.choice([1, -1])]
+                    for _ in range(rng.choice([1, 2, 2]))]
         op = {'op': 'fam', 'kind': kind, 'filter': gen_filter(rng, docs, **kw), 'sort': sort,
               'proj': gen_projection(rng, docs) if rng.random() < 0.5 else None,
               'upsert': rng.random() < 0.25, 'after': rng.random() < 0.5}
